@@ -73,7 +73,7 @@ func expectedPuts(m *Model, spec TxnSpec, res []StepResult, pre map[uint32]MRow,
 
 func TestC19(t *testing.T) {
 	rapid.Check(t, func(t *rapid.T) {
-		sch := genSchema(t, SchemaCfg{Key: 1, Merges: true, MinCols: 1, MaxCols: 3,
+		sch := genSchema(t, SchemaCfg{Key: 1, Merges: true, EnsureLenMerge: true, MinCols: 1, MaxCols: 3,
 			Kinds: []Kind{KInt, KInt16, KInt32, KInt64, KUint, KUint16, KUint32, KUint64, KFloat32, KFloat64, KString, KString}})
 		mc := NewMachine("C19", sch, column.Options{})
 		defer mc.Close()
